@@ -285,6 +285,11 @@ impl TransactionContext {
             .with_pager(self.pager().clone())
     }
 
+    /// Whether the transaction can still be ended (it was neither committed nor aborted yet).
+    pub(crate) fn can_commit(&self) -> bool {
+        self.handle.read().can_commit()
+    }
+
     /// Commits the transaction: log commit, commit handle, end.
     pub(crate) fn commit_transaction(&self) -> RuntimeResult<()> {
         let mut h = self.handle.write();
